@@ -52,17 +52,18 @@ def write_case(case, d, prefix="in"):
     """as c05_ped.write_case, the VCF with PL (or GL) where the case has likelihoods"""
     paths = G.write_case(case, d, prefix=prefix)
     field = case.get("lik_field", "PL")
+    pkeys = G.phase_format_keys(case)
     recs = []
     for i, v in enumerate(case["variants"]):
         has = all(case["pl"][s][i] is not None for s in case["samples"])
         calls = []
         for s in case["samples"]:
-            c = {"GT": case["gt"][s][i]}
+            c = G.phased_call(case, s, i)
             if has:
                 c[field] = ",".join(str(x) for x in case["pl"][s][i]) if field == "PL" else gl_string(case["pl"][s][i])
             calls.append(c)
         recs.append({"chrom": case["contig"], "pos": v["pos"], "ref": v["ref"], "alts": [v["alt"]], "calls": calls,
-                     "format": ["GT", field] if has else ["GT"]})
+                     "format": (["GT", field] if has else ["GT"]) + pkeys})
     contigs = {case["contig"]: case["seq"]}
     if any("qual" in r for r in case["reads"]):
         # hand-written cases give per-base qualities (the weight of a read's allele in the solver)
@@ -72,5 +73,6 @@ def write_case(case, d, prefix="in"):
         sim.write_bam(paths["bam"], contigs, reads, [("rg_" + s, s) for s in case["samples"]])
     defs = {"PL": '##FORMAT=<ID=PL,Number=G,Type=Integer,Description="Phred-scaled genotype likelihoods">',
             "GL": '##FORMAT=<ID=GL,Number=G,Type=Float,Description="log10 genotype likelihoods">'}
-    sim.write_vcf(paths["vcf"], contigs, case["samples"], recs, fmt_defs={field: defs[field]})
+    defs.update(G.PHASE_FMT_DEFS)
+    sim.write_vcf(paths["vcf"], contigs, case["samples"], recs, fmt_defs={k: defs[k] for k in [field] + pkeys})
     return paths
